@@ -1229,6 +1229,9 @@ def run(tier, seed):
     # fourth round: which streams UnitOutputReporter::write_child_output writes as sections (and under which headers),
     # regenerated from the source and proved equal to Model/DisplaySections.v (each stream on its own account)
     gen_tie.gate(chk, ['display_sections'], gate, family="glue")
+    # fifth round: the libtest-json report's stored output (strip_human_stdout_or_combined): only the exact status line
+    # `test <name> ... FAILED` of this test ends the stored text; everything between header and that line is stored
+    gen_tie.gate(chk, ['libtest_closing_line', 'libtest_report'], gate, family="glue")
     checker = "make -C coq Properties/C16.vo && coqc gen/assump_C16.v (Print Assumptions)"
     binary, err = vlib.build_harness()
     if binary is None:
